@@ -18,7 +18,7 @@ func checkC04(c *an.Ctx) {
 	c.Rule("C04.5", "eligibility is acted on in the pass that sees it (E2 scheduling table): every waiting stage whose condition holds (or is absent) and whose gate says yes is launched on every path of the iteration, and a stage whose condition is false is marked Skipped there and then, before the dependency gate is consulted, so that its dependents become eligible without waiting for unrelated stages")
 	c.NotDecided = append(c.NotDecided, "actual overlap in time (OS scheduling)", "the 50 ms pass period")
 	p := c.P
-	schedule := p.Func("pkg/scheduler", "Scheduler", "Schedule")
+	_, schedule, _ := scheduleImpl(p)
 	if schedule == nil {
 		c.Und("C04.0", "scheduler.(*Scheduler).Schedule", 0, "Schedule not found")
 		return
@@ -248,12 +248,12 @@ func checkC04(c *an.Ctx) {
 	op := s.inner.RangeOperand()
 	okRange := false
 	isScheduled := func(v ssa.Value) bool {
-		if an.SameValue(v, s.schedule.Params[1]) {
+		if an.SameValue(v, s.graph) {
 			return true
 		}
-		stop := func(x ssa.Value) bool { return x == ssa.Value(s.schedule.Params[1]) }
+		stop := func(x ssa.Value) bool { return x == ssa.Value(s.graph) }
 		for _, src := range p.DeepSourcesStop(v, 3, true, stop) {
-			if src != ssa.Value(s.schedule.Params[1]) {
+			if src != ssa.Value(s.graph) {
 				return false
 			}
 		}
@@ -333,7 +333,7 @@ func slotPerStage(c *an.Ctx, s *sched, snd *ssa.Send) bool {
 		if graphs, ok := allNodesOf(p, call.Call.Args[0], 2); ok && len(graphs) > 0 {
 			capOK = true
 			for _, g := range graphs {
-				if !an.SameValue(g, s.schedule.Params[1]) {
+				if !an.SameValue(g, s.graph) {
 					capOK = false
 				}
 			}
